@@ -102,7 +102,7 @@ func (env *specEnv) resolveLocal(name string) *ssa.Alloc {
 	var cands []*ssa.Alloc
 	for _, b := range env.localFn.Blocks {
 		for _, in := range b.Instrs {
-			if al, ok := in.(*ssa.Alloc); ok && al.Comment == name {
+			if al, ok := in.(*ssa.Alloc); ok && (al.Comment == name || strings.ReplaceAll(al.Comment, ".", "_") == name) {
 				cands = append(cands, al)
 			}
 		}
@@ -500,6 +500,9 @@ func (fc *FnCtx) evalBinary(env *specEnv, x *ast.BinaryExpr) Val {
 		if a.Sort == sortStr {
 			return boolV(app(sym, app("strord", a.T), app("strord", b.T)))
 		}
+		if a.Sort == sortFloat {
+			return boolV(app("float_"+map[string]string{"<": "lt", "<=": "le", ">": "gt", ">=": "ge"}[sym], a.T, b.T))
+		}
 		return boolV(app(sym, a.T, b.T))
 	case token.ADD:
 		if a.Sort == sortStr {
@@ -511,9 +514,15 @@ func (fc *FnCtx) evalBinary(env *specEnv, x *ast.BinaryExpr) Val {
 	case token.MUL:
 		return Val{T: app("*", a.T, b.T), Sort: a.Sort, Ty: a.Ty}
 	case token.QUO:
-		return Val{T: app("div", a.T, b.T), Sort: a.Sort, Ty: a.Ty}
+		if !isNumeral(b.T) {
+			return Val{T: app("goquo", a.T, b.T), Sort: a.Sort, Ty: a.Ty}
+		}
+		return Val{T: ite(app(">=", a.T, "0"), app("div", a.T, b.T), app("-", app("div", app("-", a.T), b.T))), Sort: a.Sort, Ty: a.Ty}
 	case token.REM:
-		return Val{T: app("mod", a.T, b.T), Sort: a.Sort, Ty: a.Ty}
+		if !isNumeral(b.T) {
+			return Val{T: app("gorem", a.T, b.T), Sort: a.Sort, Ty: a.Ty}
+		}
+		return Val{T: ite(app(">=", a.T, "0"), app("mod", a.T, b.T), app("-", app("mod", app("-", a.T), b.T))), Sort: a.Sort, Ty: a.Ty}
 	}
 	specFail("unsupported binary operator %v", x.Op)
 	return Val{}
@@ -690,6 +699,15 @@ func (fc *FnCtx) evalCall(env *specEnv, x *ast.CallExpr) Val {
 			return Val{T: t, Sort: sortInt, Ty: types.Typ[types.Int]}
 		}
 		return Val{T: a.T, Sort: sortInt, Ty: types.Typ[types.Int]}
+	case "arrid":
+		return Val{T: app("arr", arg(0).T), Sort: sortInt, Ty: types.Typ[types.Int]}
+	case "flt":
+		lit, ok := x.Args[0].(*ast.BasicLit)
+		if !ok {
+			specFail("flt(\"literal\")")
+		}
+		s, _ := strconv.Unquote(lit.Value)
+		return Val{T: fc.floatConst(s), Sort: sortFloat, Ty: types.Typ[types.Float64]}
 	case "heldlock":
 		return boolV(fc.lockHeld(env.st, arg(0)))
 	}
